@@ -202,23 +202,36 @@ def hasPending (w : World) : Bool :=
 def decCursor (w : World) : World :=
   { w with cursor := if w.cursor = 0 then w.slots.length - 1 else w.cursor - 1 }
 
-/-- the `for (i = 0; i < max_users; i++)` loop of get_user_command with `n` iterations left.
-    Result: the user whose turn was consumed and its raw command (the loop was left by `break`, cursor NOT moved) -/
+/-- outcome of one iteration of the `for (i = 0; i < max_users; i++)` loop of get_user_command -/
+inductive ScanRes where
+  | crash                                             -- all_users[s_next_user] outside the table
+  | found (w : World) (u : Nat) (t : List Char)        -- `break`: turn consumed, cursor NOT moved
+  | next (w : World)                                   -- go on with the next slot
+
+/-- the body of the loop for the slot under the cursor -/
+def scanStep (w : World) : ScanRes :=
+  match w.slots[w.cursor]? with
+  | none => .crash
+  | some none => .next w
+  | some (some u) =>
+    let us := w.users.get u
+    if us.cmdInBuf then
+      let r := firstCmd us.single us.buf
+      match r.2 with
+      | some t =>
+        if us.turn then .found { w with users := upd w.users u { us with buf := r.1, turn := false } } u t
+        else .next { w with users := upd w.users u { us with buf := r.1 } }
+      | none => .next { w with users := upd w.users u { us with buf := r.1, cmdInBuf := false } }
+    else .next w
+
+/-- the loop with `n` iterations left -/
 def scan : Nat → World → World × Option (Nat × List Char)
   | 0, w => (w, none)
   | n + 1, w =>
-    match w.slots[w.cursor]? with
-    | none => ({ w with crashed := true }, none)          -- all_users[s_next_user] outside the table
-    | some none => scan n (decCursor w)
-    | some (some u) =>
-      let us := w.users.get u
-      if us.cmdInBuf then
-        match firstCmd us.single us.buf with
-        | (b', some t) =>
-          if us.turn then ({ w with users := upd w.users u { us with buf := b', turn := false } }, some (u, t))
-          else scan n (decCursor { w with users := upd w.users u { us with buf := b' } })
-        | (b', none) => scan n (decCursor { w with users := upd w.users u { us with buf := b', cmdInBuf := false } })
-      else scan n (decCursor w)
+    match scanStep w with
+    | .crash => ({ w with crashed := true }, none)
+    | .found w' u t => (w', some (u, t))
+    | .next w' => scan n (decCursor w')
 
 /-- get_user_command: the user served and the command text handed to the mudlib -/
 def getUserCommand (w : World) : World × Option (Nat × List Char) :=
